@@ -99,6 +99,23 @@ def answer (l : String) : String :=
       showMat ((List.range (K1 * K2)).map fun f =>
         (List.range (m1 * m2)).map fun c => basis2 K2 m2 (rd2 A) (rd2 B) f (c / m2) (c % m2))
     | _, _ => "bad"
+  | ["b3", v1, v2, v3] =>
+    -- kron(kron(V1, V2), V3).reshape(K1*K2*K3, m1, m2, m3): rows of flattened m1*m2*m3 images
+    match parseMat? v1, parseMat? v2, parseMat? v3 with
+    | some V1, some V2, some V3 =>
+      let K1 := V1.length
+      let K2 := V2.length
+      let K3 := V3.length
+      let m1 := (V1.headD []).length
+      let m2 := (V2.headD []).length
+      let m3 := (V3.headD []).length
+      let A := (V1.map List.toArray).toArray
+      let B := (V2.map List.toArray).toArray
+      let C := (V3.map List.toArray).toArray
+      showMat ((List.range (K1 * K2 * K3)).map fun f =>
+        (List.range (m1 * m2 * m3)).map fun t =>
+          basis3 K2 m2 K3 m3 (rd2 A) (rd2 B) (rd2 C) f (t / (m2 * m3)) (t / m3 % m2) (t % m3))
+    | _, _, _ => "bad"
   | ["fou", n, xs] =>
     match n.toNat?, parseVec? xs with
     | some n, some xs => showFMat (fourierF xs n)
